@@ -58,6 +58,16 @@ def bridgeStepC (c : BridgeC) : BridgeAct → BridgeC × Out
   | .release p => ({ c with others := c.others.filter (· != p) }, .ok)
   | .foreign => (c, .ok)
 
+/-- `start()` in which the bind of port `p` fails although nobody is seen holding it — the task is cancelled while it is suspended
+    in that `create_datagram_endpoint`, or the bind raises an error of any class: control leaves the loop through the same
+    `except BaseException` clause as for an occupied port.  Expressed with what the machine already has: somebody holds `p` for
+    the duration of this call only.  (If `p` is not free anyway, it is a plain start.) -/
+def startFailingAt (c : BridgeC) (p : Nat) : BridgeC × Out :=
+  if c.free p then
+    let r := bridgeStepC (bridgeStepC c (.occupy p)).1 .start
+    ((bridgeStepC r.1 (.release p)).1, r.2)
+  else bridgeStepC c .start
+
 def bridgeInitC (ports : List Nat) : BridgeC := { ports, table := [], openT := [], next := 0, running := false, others := [] }
 
 /-- what the abstract machine sees of the concrete state -/
